@@ -32,8 +32,15 @@ Proof. exact ParsePrint.print_parse_roundtrip. Qed.
    parameter, whose bounds it extends (`struct S<T: A> where T: B` gives T the bounds A and B). wf_decl asks for distinct parameter names,
    non-keyword identifiers, well-formed types. *)
 Theorem struct_parse_complete : forall dedup_ty dedup_lt fuel d, wf_decl fuel d ->
-  parse_data dedup_ty dedup_lt fuel (lexd d) = Ok (expected dedup_ty dedup_lt d) nil.
+  parse_data dedup_ty dedup_lt fuel (lexd d) = Ok (DStruct (expected dedup_ty dedup_lt d)) nil.
 Proof. exact ParseDeclProof.struct_parse_complete. Qed.
+(* ENUM declarations (next_enum; struct-like variants go through the anonymous-struct case of next_type): unit, tuple-like and struct-like
+   variants with their attributes, generics and where clauses as for structs, with or without the comma after the last variant, are parsed
+   to exactly the expected structure. The model checks for the end of the body before it asks for a variant's type - the repair of D16;
+   before it, next_type answered the empty unnamed type there (ParseProof.nt_empty_ok) and `enum E { A, B }` made B tuple-like. *)
+Theorem enum_parse_complete : forall dedup_ty dedup_lt fuel e, wf_enum fuel e ->
+  parse_data dedup_ty dedup_lt fuel (lexe e) = Ok (DEnum (expected_enum dedup_ty dedup_lt e)) nil.
+Proof. exact ParseDeclProof.enum_parse_complete. Qed.
 (* the hypotheses of struct_parse_complete are satisfiable: a declaration with doc comment, struct-level and field-level attributes, lifetime,
    bounded type parameter, const parameter with default, a where clause that extends T and bounds Vec<T>, trailing commas *)
 Section Example.
@@ -66,7 +73,25 @@ Proof.
   - (* fields *)
     repeat constructor; cbn; auto; try lia; try discriminate.
 Qed.
-Example ex_parse : parse_data (fun x => x) (fun x => x) 10 (lexd ex_decl) = Ok (expected (fun x => x) (fun x => x) ex_decl) [].
+Example ex_parse : parse_data (fun x => x) (fun x => x) 10 (lexd ex_decl) = Ok (DStruct (expected (fun x => x) (fun x => x) ex_decl)) [].
+Proof. vm_compute. reflexivity. Qed.
+Definition ex_enum : genum :=
+  {| en_attrs := [GADiff [IFlag "expose"] false]; en_pub := true; en_name := "E";
+     en_generics := Some {| gg_params := [PLife "a" []; PType "T" [GPath "Clone" [] []] None]; gg_where := None |};
+     en_variants := [ {| gv_attrs := []; gv_name := "A"; gv_body := VUnit |};
+                      {| gv_attrs := [GAOther "doc" [TP PEq; TLit (LStr "x")]]; gv_name := "B"; gv_body := VTuple [GPath "T" [] []; GRef (Some "a") (GPath "u8" [] [])] false |};
+                      {| gv_attrs := []; gv_name := "C"; gv_body := VStruct [ {| gf_attrs := [GADiff [IFlag "skip"] false]; gf_vis := VNone; gf_name := "x"; gf_ty := GPath "Option" [] [GPath "T" [] []] |} ] true |};
+                      {| gv_attrs := []; gv_name := "D"; gv_body := VUnit |} ];
+     en_trailing := false |}.
+Example ex_enum_wf : wf_enum 10 ex_enum.
+Proof.
+  split; [repeat constructor; cbn; auto; discriminate|].
+  split; [split; [repeat constructor; cbn; auto; lia|split; [cbn; repeat (constructor; [cbn; intros H; repeat (destruct H as [H|H]; try discriminate); try contradiction|]); constructor|exact I]]|].
+  split; [|discriminate].
+  repeat constructor; cbn; auto; try lia; try discriminate.
+  exists 9. split; [reflexivity|]. repeat constructor; cbn; auto; try lia; try discriminate.
+Qed.
+Example ex_enum_parse : parse_data (fun x => x) (fun x => x) 10 (lexe ex_enum) = Ok (DEnum (expected_enum (fun x => x) (fun x => x) ex_enum)) [].
 Proof. vm_compute. reflexivity. Qed.
 End Example.
 
@@ -94,7 +119,7 @@ Proof.
 Qed.
 (* end to end over the front end: what the templates read off the k-th field of a parsed declaration is decided by the items the user wrote on it *)
 Theorem parsed_field_flags : forall dedup_ty dedup_lt fuel d st, wf_decl fuel d ->
-  parse_data dedup_ty dedup_lt fuel (lexd d) = Ok st nil ->
+  parse_data dedup_ty dedup_lt fuel (lexd d) = Ok (DStruct st) nil ->
   List.length (s_fields st) = List.length (d_fields d) /\
   forall k f pf, nth_error (d_fields d) k = Some f -> nth_error (s_fields st) k = Some pf ->
     f_name pf = Some (gf_name f) /\ f_ty pf = embed (gf_ty f) /\
@@ -129,3 +154,4 @@ Print Assumptions attribute_readings.
 Print Assumptions parsed_field_flags.
 Print Assumptions used_lifetimes_exact.
 Print Assumptions array_lens_exact.
+Print Assumptions enum_parse_complete.
